@@ -13,6 +13,7 @@ mod poly;
 mod quire;
 mod randsuite;
 mod sink;
+mod screen;
 mod val;
 
 fn main() {
